@@ -242,3 +242,14 @@ Proof.
   - unfold partial in H. simpl in H. lra.
 Qed.
 End AtR.
+
+(* the premises of divergence_free are satisfiable: two modes in 2-D *)
+Example divergence_premises_satisfiable :
+  let ks := [[1; 0]; [2; -3]] in let x := [5; 7] in
+  length x = shape0 ks /\ (0 < shape0 ks)%nat /\
+  (forall j, (j < shape1 ks)%nat -> exists d, (d < shape0 ks)%nat /\ aget2 0 ks d j <> 0).
+Proof.
+  cbv zeta. repeat split; simpl; try lia.
+  intros j Hj. unfold shape1 in Hj; simpl in Hj. exists 1%nat. split; [unfold shape0; simpl; lia|].
+  destruct j as [|[|j]]; unfold aget2, arow, aget; simpl; try lra. lia.
+Qed.
